@@ -14,7 +14,7 @@ from vf.sim.scenario import Sim
 PSK = bytes(range(11, 43))
 
 
-def run_case(cuts: list[int] | None, n_data: int, name: str | None, expected: str | None, early_send: bool = False) -> dict[str, Any]:
+def run_case(cuts: list[int] | None, n_data: int, name: str | None, expected: str | None, early_send: bool = False, login: bool = False) -> dict[str, Any]:
     from aioesphomeapi import api_pb2 as pb
 
     with Sim() as sim:
@@ -44,8 +44,8 @@ def run_case(cuts: list[int] | None, n_data: int, name: str | None, expected: st
         kw: dict[str, Any] = {"noise_psk": base64.b64encode(PSK).decode()}
         if expected is not None:
             kw["expected_name"] = expected
-        cli = sim.client(**kw)
-        c0 = sim.call("connect", lambda: cli.connect(on_stop=sim.on_stop_cb(), login=False))
+        cli = sim.client(password="pw" if login else None, **kw)
+        c0 = sim.call("connect", lambda: cli.connect(on_stop=sim.on_stop_cb(), login=login))
         early: dict[str, Any] = {}
         if early_send:
             cfg.noise_silent = True
@@ -92,7 +92,8 @@ def shard(ctx: Ctx) -> None:
             idx += 1
             if not ctx.mine(idx):
                 continue
-            o = run_case(cuts, n_data, "dev", "dev" if idx % 2 else None)
+            login = idx % 3 == 0    # with login the client's first encrypted write is a BATCH of two messages (hello + connect)
+            o = run_case(cuts, n_data, "dev", "dev" if idx % 2 else None, login=login)
             res.evaluations += 1
             res.count("S/end-to-end-sessions")
             if o["harness_errors"]:
@@ -110,6 +111,8 @@ def shard(ctx: Ctx) -> None:
                 res.violation("C03/S/delivery", f"process_packet saw type sequence {got}; device wrote {n_data} states behind the handshake, then HelloResponse", case, trace=o["trace"])
             if o["decode_errors"]:
                 res.violation("C03/S/client-bytes", str(o["decode_errors"][:2]), case)
+            if login and o["dev_rx"][:2] != ["HelloRequest", "ConnectRequest"]:
+                res.violation("C03/S/client-bytes", f"the conformant responder decrypted {o['dev_rx']} from the client's login batch", case)
     # name rule end to end
     for name, expected, ok in (("dev", "dev", True), ("other", "dev", False), ("Dev", "dev", False), (None, "dev", True), ("", "dev", False), ("dev", None, True)):
         idx += 1
